@@ -70,6 +70,7 @@ func runTime(cell c12Cell, sc c12Scenario, info func(string, ...any)) (res c12Ti
 	defer w.close()
 	cell = w.cell
 	res.ClosedAt, res.FirstMust = -1, -1
+	foreignSeen := false
 	defer func() {
 		if v := recover(); v != nil {
 			viols = append(viols, c12Viol{
@@ -94,8 +95,15 @@ func runTime(cell c12Cell, sc c12Scenario, info func(string, ...any)) (res c12Ti
 		obs.ForceCloses, obs.Errors, obs.States = w.obs.ForceCloses, w.obs.Errors, w.obs.States
 		w.mu.Unlock()
 		closed := obs.ForceCloses > 0
-		if closed {
+		w.mu.Lock()
+		nf := len(w.foreign)
+		w.mu.Unlock()
+		if closed || nf > 0 {
 			obs = w.snapshot()
+		}
+		if nf > 0 && !foreignSeen {
+			foreignSeen = true
+			viols = append(viols, foreignViols("time", &obs)...)
 		}
 		if len(obs.Errors) > 0 {
 			viols = append(viols, c12Viol{
@@ -270,6 +278,7 @@ func judgeDisp(c *c12Cell, sc c12Scenario, o *c12Obs) (classes []string, viols [
 	if len(o.Errors) > 0 {
 		add("advance-error", nil, fmt.Sprintf("advanceState returned an error: %v", o.Errors))
 	}
+	viols = append(viols, foreignViols("disp", o)...)
 
 	threeCommit := sc.Conf == "local" || sc.Conf == "remote" || sc.Conf == "pending"
 	var key HtlcSetKey
@@ -353,8 +362,8 @@ func judgeDisp(c *c12Cell, sc c12Scenario, o *c12Obs) (classes []string, viols [
 		pk := int8(c12Absent)
 		if threeCommit {
 			pk = x.on(key)
-			rs = resAt[uint32(outIndex(k))]
-			delete(resAt, uint32(outIndex(k)))
+			rs = resAt[uint32(outIndexOn(key, k))]
+			delete(resAt, uint32(outIndexOn(key, k)))
 		}
 		rk := "none"
 		if len(rs) > 0 {
@@ -380,7 +389,7 @@ func judgeDisp(c *c12Cell, sc c12Scenario, o *c12Obs) (classes []string, viols [
 			// "every HTLC with an output on it gets exactly one on-chain resolver"
 			switch {
 			case len(rs) == 0:
-				add("resolver-missing", x, fmt.Sprintf("HTLC #%d has output %d on the confirmed %s commitment but no resolver was inserted", k, outIndex(k), sc.Conf))
+				add("resolver-missing", x, fmt.Sprintf("HTLC #%d has output %d on the confirmed %s commitment but no resolver was inserted", k, outIndexOn(key, k), sc.Conf))
 			case len(rs) > 1:
 				add("resolver-duplicate", x, fmt.Sprintf("HTLC #%d has %d resolvers: %v", k, len(rs), rs))
 			case kindDir(rs[0].Kind) != dir:
@@ -390,12 +399,12 @@ func judgeDisp(c *c12Cell, sc c12Scenario, o *c12Obs) (classes []string, viols [
 			// still has an output on the confirmed commitment."
 			if !x.In && fq > 0 {
 				add("failback-with-output/issued=after-confirmation", x, fmt.Sprintf(
-					"offered HTLC #%d (idx %d) has output %d on the confirmed %s commitment, yet %d upstream fail(s) were issued after the confirmation", k, x.Idx, outIndex(k), sc.Conf, fq))
+					"offered HTLC #%d (idx %d) has output %d on the confirmed %s commitment, yet %d upstream fail(s) were issued after the confirmation", k, x.Idx, outIndexOn(key, k), sc.Conf, fq))
 			}
 			if !x.In && fp > 0 {
 				add("failback-with-output/issued=before-confirmation", x, fmt.Sprintf(
 					"offered HTLC #%d (idx %d) was failed back upstream (%d msg) at the go-to-chain step (%s trigger, height %d), before anything confirmed; the %s commitment then confirmed and the HTLC has output %d on it (and a resolver: %s)",
-					k, x.Idx, fp, sc.Pre, sc.H0, sc.Conf, outIndex(k), rk))
+					k, x.Idx, fp, sc.Pre, sc.H0, sc.Conf, outIndexOn(key, k), rk))
 			}
 
 		case !x.In && pk == c12Dust:
@@ -440,6 +449,28 @@ func judgeDisp(c *c12Cell, sc c12Scenario, o *c12Obs) (classes []string, viols [
 	}
 	for idx, rs := range resAt {
 		add("resolver-without-output", nil, fmt.Sprintf("resolver(s) %v inserted for output %d of the confirmed commitment, where no HTLC of the commit set has an output", rs, idx))
+	}
+	return
+}
+
+// foreignViols: a dependency was queried (or notified) with a key that belongs to
+// no HTLC of the channel: whatever the arbitrator concluded from the answer, it was
+// not about the HTLC it was deciding on.
+func foreignViols(kind string, o *c12Obs) (viols []c12Viol) {
+	seen := map[string]bool{}
+	for _, f := range o.Foreign {
+		dep := f
+		if i := strings.Index(f, ":"); i >= 0 {
+			dep = f[:i]
+		}
+		if seen[dep] {
+			continue
+		}
+		seen[dep] = true
+		viols = append(viols, c12Viol{
+			Sig:  fmt.Sprintf("%s/queried-with-foreign-key/dep=%s", kind, dep),
+			What: fmt.Sprintf("%s was called with a key that addresses no HTLC of this channel (%v)", dep, o.Foreign),
+		})
 	}
 	return
 }
